@@ -136,6 +136,11 @@ def check_crop(spec, ctx):
     before = snapshot(arr)
     out = ctx.call(spec, f"crop_dim({kw})", arrays.crop_dim, arr, "time", **kw)
     ctx.unchanged(spec, "crop_dim: the input array", before, arr)
+    # positional form (documented order: arr, dim, start, stop, right_closed, left_closed) and numpy scalars
+    pos = arrays.crop_dim(arr, "time", kw.get("start"), kw.get("stop"), kw.get("right_closed", False), kw.get("left_closed", True))
+    nps = arrays.crop_dim(arr, "time", **{k: (np.float64(v) if isinstance(v, float) else v) for k, v in kw.items()})
+    if not pos.identical(out) or not nps.identical(out):
+        ctx.fail("crop_dim written positionally / with numpy scalars differs from the keyword call", spec, None, None, kind="call_style")
     if lc and not rc:  # documented defaults: left_closed=True, right_closed=False
         kw_d = {k: v for k, v in kw.items() if k in ("start", "stop")}
         if not arrays.crop_dim(arr, "time", **kw_d).identical(out) and not (spec["none_start"] or spec["none_stop"]):
@@ -194,6 +199,9 @@ def check_extend(spec, ctx):
     before = snapshot(arr)
     out = ctx.call(spec, f"extend_dim({kw})", arrays.extend_dim, arr, "time", **kw)
     ctx.unchanged(spec, "extend_dim: the input array", before, arr)
+    nps = arrays.extend_dim(arr, "time", **{k: (np.float64(v) if isinstance(v, float) else v) for k, v in kw.items()})
+    if not nps.identical(out):
+        ctx.fail("extend_dim called with numpy scalars differs from the call with Python floats", spec, None, None, kind="call_style")
     oc = out.coords["time"].values
     first, why = embedded(arr, out, FILL)
     if first is None:
